@@ -10,6 +10,12 @@ VH_FEATURES = []
 THEOREMS = {"glob_iff": "full: match_glob = wildcard semantics for every pattern and string", "select_spec": "full", "glob_literal": "full", "glob_trailing_stars": "full",
             "macbinary_strip": "full: recognised envelope -> data fork (or resource fork)", "macbinary_keep": "full", "mac_header_spec": "full: field-by-field characterisation",
             "no_filter_selects_all": "full", "flatten_ignores_path": "full", "flatten_single_component": "full", "relocate_prefix": "full",
+            "extract_reproduces_tree": "FULL, end to end on bytes: for every well-formed encodable tree, lha x of the archive that encodes it (headers by the C05 "
+                                       "encoder, stored members) into an empty directory reproduces exactly that tree; no hypothesis about the reader",
+            "extract_reproduces_tree_packed": "full: the same for any member packer with a decoder round trip (stored L1/L2, -lzs-, -lz5- instantiated)",
+            "archive_denotes_tree": "full: the Denotes hypothesis of run_tree_partial is a theorem for such archives",
+            "sample_tree_with_files_extracts": "non-vacuity incl. files and read-only directories",
+            "extract_models_agree": "full: Extract.run = Messages.run .extract (fs incl. mutation log, reader, result, abort) under two necessary side conditions",
             "run_tree_partial": "partial: lha x (no w=/i/wildcards) into an empty directory, root or ordinary user: for every well-formed "
                                 "(directory-first, explicit parents, safe links) entry list the archive denotes, the object at EVERY path below the "
                                 "extraction directory is the archived one and nothing outside changes; hypotheses evaluated on every generated "
@@ -697,8 +703,9 @@ LEVEL_TEXT = ("Lean theorems: extraction of a well-formed archive yields exactly
               "two-stage directories; root and ordinary user); the wildcard matcher equals its specification for every pattern and string; path construction; the "
               "file-system model of the whole extraction (Fs + Extract + Reader) is tied to the real tool by complete-tree and stdout "
               "comparison, and the real tool's tree is judged against an independent oracle of the archived tree (root and non-root).")
-LEVEL_NOTE = ("Partial: the file system is a model (no hard links, chown, whole-second times); tree equality is PROVED for plain "
-              "`lha x` of well-formed archives with explicit parent entries (run_tree_partial, dir_meta_final) and checked by "
-              "correspondence for options i / w= / wildcards / pre-existing files / implicit parents. See evidence.theorems.")
+LEVEL_NOTE = ("Partial: the file system is a model (no hard links, chown, whole-second times); tree equality is PROVED end to end on archive "
+              "bytes for plain `lha x` of well-formed trees with explicit parent entries (extract_reproduces_tree: header encoder + stored/"
+              "-lzs-/-lz5- members; run_tree_partial for any archive that denotes the tree) and checked by correspondence for options "
+              "i / w= / wildcards / pre-existing files / implicit parents / the other methods. See evidence.theorems.")
 TECHNIQUE = ("Lean 4 proof (whole-tree theorem over the Fs/Extract/Reader models by loop invariant; glob semantics; MacBinary) + "
              "hypothesis evaluation on generated archives + file-system-model correspondence + independent tree oracle")
